@@ -125,4 +125,13 @@ TEXT = {
         'note': COMMON_NOTE + ' Termination is judged by a time budget (2 s per call on inputs of at most a few dozen elements).',
         'technique': 'TLA+ spec defines states + input domain; native enumeration with watchdog and atomicity check',
     },
+    'C05': {
+        'text': 'Bounded exhaustive model checking over blocks x encodings: the abstract effect of a block in spec/Core.tla '
+                'does not depend on the encoding of its proof, so every encoding the real Verify accepts (permuted, padded, '
+                'assembled by AddProof, cut by GetProofSubset) must drive Stump, Pollard and full/partial MapPollard (all '
+                'TotalRows of the tier) to the same reference roots.',
+        'design_ref': 'DESIGN.md section 5 (C05)',
+        'note': COMMON_NOTE,
+        'technique': 'TLA+ spec + TLC BFS over (state, block, encoding), conditional replay on the code (G->R)',
+    },
 }
